@@ -126,7 +126,8 @@ class CleanPass(FunctionPass):
             block1.add_instruction(instruction)
 
         # Replace incoming info:
-        for successor in block2.successors:
+        # (visit a successor once, block2 can have two edges to it)
+        for successor in dict.fromkeys(block2.successors):
             successor.replace_incoming(block2, [block1])
 
         # Remove block from function:
